@@ -912,6 +912,162 @@ fn emit(ctx: &mut Ctx, sc: &Scenario, o: &Option<Outcome>) {
     ctx.prop(class, &format!("{} {} {} {} {} {}", spec_word, script.replace('/', " "), outs, o.fin, list(&o.proc_sent), list(&o.proc_got)), "ok");
 }
 
+/// Sequential family: call i+1 starts only after call i has returned.  Per call the peer reads the request and then, BEFORE
+/// it answers, sends once more (tag 10j+2) the replies of a seeded non-empty set of EARLIER calls — calls that were
+/// answered and have returned (`E`) or that timed out unanswered (`L`: their only answer comes now) — to the reply pids of
+/// those calls; then the current call's own reply (tag 10i).  A call is outstanding whenever a late copy arrives, and
+/// that copy is never addressed to it: it must return its own reply.  Judged by the Spec's per-call content rule.
+async fn sequential(kinds: Vec<Kind>, resend: Vec<Vec<usize>>, wrapped: bool) -> Option<(Vec<String>, usize, Vec<Option<ExternalPid>>)> {
+    let case = CASE.fetch_add(1, std::sync::atomic::Ordering::SeqCst) + 1;
+    let k = kinds.len();
+    let epmd = FakeEpmd::start().await;
+    let short = format!("c17q{}", case);
+    let peer_name = format!("{}@127.0.0.1", short);
+    let local_name = format!("c17m{}@127.0.0.1", case);
+    let listener = listen_as(&epmd, &short).await;
+    let mut node = Node::new(local_name.clone(), "secret");
+    node.start(0).await.ok()?;
+    let node = Arc::new(node);
+    let cfg = PeerCfg::new(&peer_name, "secret");
+    let (kinds2, resend2) = (kinds.clone(), resend.clone());
+    let (pid_tx, pid_rx) = tokio::sync::oneshot::channel::<Vec<Option<ExternalPid>>>();
+    let peer = tokio::spawn(async move {
+        let Some(mut pc) = accept_and_handshake(&listener, &cfg).await else { return };
+        let mut frames = Frames { buf: vec![], closed: false };
+        let mut pids: Vec<Option<ExternalPid>> = vec![None; kinds2.len()];
+        let mut seen = 0;
+        let t0 = Instant::now();
+        while seen < kinds2.len() && t0.elapsed() < Duration::from_secs(20) && !frames.closed {
+            let Some(f) = frames.next(&mut pc, Duration::from_millis(50)).await else { continue };
+            let Some((i, p)) = parse_request(&f) else { continue };
+            if i >= kinds2.len() || pids[i].is_some() {
+                continue;
+            }
+            pids[i] = Some(p.clone());
+            seen += 1;
+            for &j in &resend2[i] {
+                if let Some(q) = pids[j].clone() {
+                    pc.send_frame(&reply_frame(&q, (j as i64) * 10 + 2)).await;
+                }
+            }
+            if matches!(kinds2[i], Kind::Reply | Kind::DupLate) {
+                pc.send_frame(&reply_frame(&p, (i as i64) * 10)).await;
+            }
+        }
+        let _ = pid_tx.send(pids);
+        // keep the socket open and drained until the harness is done
+        loop {
+            if frames.next(&mut pc, Duration::from_millis(50)).await.is_none() && frames.closed {
+                break;
+            }
+        }
+    });
+    if node.connect(peer_name.clone()).await.is_err() {
+        peer.abort();
+        return None;
+    }
+    edp_client::verif_hooks::set_yield_hook(None);
+    let mut outs = vec![];
+    for (i, kd) in kinds.iter().enumerate() {
+        let to = Duration::from_millis(if matches!(kd, Kind::Late | Kind::Never) { 120 } else { 10_000 });
+        let n = node.clone();
+        let pn = peer_name.clone();
+        // in a task of its own, like every caller of a node
+        let h = tokio::spawn(async move {
+            if wrapped {
+                wrapped_text(n.rpc_call_with_timeout(&pn, "c17", &format!("f{}", i), vec![], to).await)
+            } else {
+                outcome_text(n.rpc_call_raw_with_timeout(&pn, "c17", &format!("f{}", i), vec![], to).await)
+            }
+        });
+        outs.push(match tokio::time::timeout(Duration::from_secs(15), h).await {
+            Ok(Ok(o)) => o,
+            Ok(Err(_)) => "panic".to_string(),
+            Err(_) => "hang".to_string(),
+        });
+    }
+    let pids = tokio::time::timeout(Duration::from_secs(5), pid_rx).await.ok().and_then(|r| r.ok()).unwrap_or_else(|| vec![None; k]);
+    // what was sent last has been routed when a fence call behind it has come back
+    let fin = node.pending_rpc_count();
+    peer.abort();
+    Some((outs, fin, pids))
+}
+
+fn sequential_families(ctx: &mut Ctx) {
+    let rounds = ctx.n(10, 80);
+    for round in 0..rounds {
+        let k = ctx.rng.range(2, 6) as usize;
+        let wrapped = round % 5 == 4;
+        // which calls are never answered in time (their answer comes during a later call); the last call is answered
+        let mut kinds: Vec<Kind> = (0..k).map(|i| if i + 1 < k && round % 3 == 2 && ctx.rng.chance(1, 3) { Kind::Late } else { Kind::Reply }).collect();
+        let mut resend: Vec<Vec<usize>> = vec![vec![]; k];
+        for i in 1..k {
+            let mut js: Vec<usize> = match round % 4 {
+                0 => vec![i - 1],                     // the call that returned last
+                1 => (0..i).collect(),                // every earlier call, oldest first
+                2 => (0..i).rev().collect(),          // newest first
+                _ => {
+                    let mut v: Vec<usize> = (0..i).filter(|_| ctx.rng.chance(1, 2)).collect();
+                    if v.is_empty() {
+                        v.push(ctx.rng.below(i as u64) as usize);
+                    }
+                    ctx.rng.shuffle(&mut v);
+                    v
+                }
+            };
+            if ctx.rng.chance(1, 4) {
+                // the same late copy twice
+                let again = js[0];
+                js.push(again);
+            }
+            resend[i] = js;
+        }
+        // an answered call whose reply is sent once more later is the Spec's `E`; an unanswered one whose only answer comes later `L`
+        for i in 0..k {
+            let resent = resend.iter().any(|js| js.contains(&i));
+            kinds[i] = match (kinds[i], resent) {
+                (Kind::Reply, true) => Kind::DupLate,
+                (Kind::Late, false) => Kind::Never,
+                (kd, _) => kd,
+            };
+        }
+        let codes = list(&kinds.iter().map(|k| k.code()).collect::<Vec<_>>());
+        let plan = resend.iter().map(|js| if js.is_empty() { "_".to_string() } else { js.iter().map(|j| j.to_string()).collect::<Vec<_>>().join("+") }).collect::<Vec<_>>().join(",");
+        let (kinds2, resend2) = (kinds.clone(), resend.clone());
+        let (tx, rx) = std::sync::mpsc::channel();
+        std::thread::spawn(move || {
+            let rt = tokio::runtime::Builder::new_current_thread().enable_all().build().unwrap();
+            let o = rt.block_on(sequential(kinds2, resend2, wrapped));
+            let _ = tx.send(o);
+        });
+        ctx.count("sequential_scenarios");
+        match rx.recv_timeout(Duration::from_secs(120)) {
+            Err(_) => ctx.fail("c17-call-never-returns", &format!("sequential calls={} late-copies-before-the-reply-of-call={} the runtime thread stopped making progress", codes, plan)),
+            Ok(None) => ctx.count("setup_failed"),
+            Ok(Some((outs, fin, pids))) => {
+                ctx.add("calls", k as u64);
+                ctx.add("sequential_late_copies", resend.iter().map(|js| js.len() as u64).sum());
+                for kd in &kinds {
+                    ctx.count(&format!("seq_kind_{}", kd.code()));
+                }
+                let distinct = {
+                    let mut v: Vec<String> = pids.iter().map(pid_text).collect();
+                    v.sort();
+                    v.dedup();
+                    v.len() == k
+                };
+                if !distinct {
+                    ctx.fail("c17-reply-pid-reused", &format!("sequential calls={} reply pids={} (call i+1 started after call i returned)", codes, list(&pids.iter().map(pid_text).collect::<Vec<_>>())));
+                }
+                // `order` carries the plan of late copies (the Spec does not read it): call i's entry lists the earlier calls
+                // whose reply was sent again just before call i was answered
+                let spec_word = if wrapped { "c17wspec" } else { "c17spec" };
+                ctx.prop("gen", &format!("{} {} seq:{} keep {} {} - -", spec_word, codes, plan, outs.join(";"), fin), "ok");
+            }
+        }
+    }
+}
+
 fn perms(n: usize) -> Vec<Vec<usize>> {
     if n == 0 {
         return vec![vec![]];
@@ -1188,6 +1344,8 @@ pub fn run(ctx: &mut Ctx) {
         sc.mt = kd == Kind::DropAwait;
         go(ctx, sc, "key_prefix_scenarios");
     }
+    // 15. sequential calls with late copies of earlier replies arriving while a LATER call is outstanding
+    sequential_families(ctx);
     // 12. term level: `into_rex_response`, the request frames of the wrappers and of the `erlang_*` calls
     term_ties(ctx);
 }
